@@ -7,11 +7,14 @@
    {add, tryAdd, joinJobs, resize} (client 0 created the pool; after its operations it joins the other client
    threads and calls POOL_free) and job table [bodies] (what each job posts while it runs).
    fx = true : the current code (POOL_thread broadcasts queuePushCond);  fx = false : the code before the F5 repair.
-   Every theorem holds for every n >= 1, q >= 0, every non-empty [progs], every [bodies], every [sched]. *)
+   Every theorem holds for every n >= 1, q >= 0, every non-empty [progs], every [bodies], every [sched].
+   Round 2: the wake choice of a POOL_resize step is also its FAILURE POINT (PoolModel.created: 0 = nothing fails, 1 = the
+   allocation of the thread array fails, k+2 = the (k+1)-th pthread_create fails), so "every [sched]" includes every allocation /
+   thread-creation failure inside every POOL_resize; the last section states what such a resize does. *)
 From Coq Require Import List Arith Bool.
 Import ListNotations.
 From ZV.Conc Require Import Sched PoolModel PoolLemmas PoolInvDefs PoolInv3 PoolInv4 PoolInv9 PoolTheorems PoolLive PoolExamples.
-From ZV.Conc Require Import PoolSafety PoolTermDefs PoolTermStep PoolTerm PoolFair PoolFairEx PoolLimit.
+From ZV.Conc Require Import PoolSafety PoolTermDefs PoolTermStep PoolTerm PoolFair PoolFairEx PoolLimit PoolFault.
 
 (* the circular buffer agrees with the FIFO list of accepted-but-not-started jobs (both queueSize > 1 and the
    hand-off pool queueSize = 1); queueEmpty is exact *)
@@ -198,3 +201,49 @@ Theorem pool_busy_le_capacity : forall bodies progs n q sched,
   busy (sp s) <= cap (sp s) /\ 1 <= limit (sp s) <= cap (sp s).
 Proof. exact busy_le_capacity. Qed.
 Print Assumptions pool_busy_le_capacity.
+
+(* ---------------------------------------------------------------------------------------------------------
+   Round 2: allocation / pthread_create failure inside POOL_resize (POOL_resize_internal, numThreads > threadCapacity) *)
+
+(* when a failure strikes: the allocation (w = 1) or one of the d = numThreads - threadCapacity calls of pthread_create *)
+Theorem pool_resize_failure_point : forall w d,
+  created w d < d <-> (w = 1 /\ 0 < d) \/ (exists k, w = S (S k) /\ k < d).
+Proof. exact created_lt_iff. Qed.
+Print Assumptions pool_resize_failure_point.
+
+(* a growing POOL_resize that fails after m threads were created: threadCapacity grows by exactly m (the threads that exist:
+   POOL_free joins them), threadLimit, the queue, numThreadsBusy, shutdown and the job bookkeeping are untouched, the m new
+   workers stand at the top of POOL_thread; the caller still broadcasts queuePopCond and unlocks (next pcs RBcast, RUnlock) *)
+Theorem pool_resize_failure_frame : forall cfg tid w s s' th n,
+  step cfg tid w s = Some s' -> nth_error (st s) tid = Some th -> t_pc th = RLock n -> cap (sp s) < n ->
+  created w (n - cap (sp s)) < n - cap (sp s) ->
+  let m := created w (n - cap (sp s)) in
+  sp s' = set_cap (cap (sp s) + m) (set_owner (Some tid) (sp s)) /\ sg s' = sg s /\
+  st s' = upd tid (set_pc RBcast th) (st s) ++ repeat new_worker m.
+Proof. exact resize_failure_frame. Qed.
+Print Assumptions pool_resize_failure_frame.
+
+Theorem pool_resize_success_frame : forall cfg tid w s s' th n,
+  step cfg tid w s = Some s' -> nth_error (st s) tid = Some th -> t_pc th = RLock n -> cap (sp s) < n ->
+  created w (n - cap (sp s)) = n - cap (sp s) ->
+  sp s' = set_cap_limit n (set_owner (Some tid) (sp s)) /\ sg s' = sg s /\
+  st s' = upd tid (set_pc RBcast th) (st s) ++ repeat new_worker (n - cap (sp s)).
+Proof. exact resize_success_frame. Qed.
+Print Assumptions pool_resize_success_frame.
+
+(* in every reachable state, whatever resizes failed on the way: threadCapacity = number of worker threads that exist (POOL_join's
+   loop bound covers every thread ever created), the workers are the threads behind the clients, 1 <= threadLimit <= threadCapacity *)
+Theorem pool_capacity_is_worker_count : forall bodies progs n q sched,
+  progs <> [] -> 1 <= n ->
+  let s := reach true bodies progs n q sched in
+  length (st s) = length progs + cap (sp s) /\
+  (forall t th, nth_error (st s) t = Some th -> t_worker th = negb (t <? length progs)) /\
+  1 <= limit (sp s) <= cap (sp s).
+Proof. exact capacity_is_worker_count. Qed.
+Print Assumptions pool_capacity_is_worker_count.
+
+(* the failure branch is reachable and such a run completes: POOL_resize(3) on a 1-thread pool, 2nd pthread_create fails *)
+Example pool_resize_failure_run :
+  let s := reach true rf_bodies rf_progs 1 1 (rf_prefix ++ rr 40 3) in
+  all_done s = true /\ cap (sp s) = 2 /\ limit (sp s) = 1 /\ map snd (done (sg s)) = [0; 1].
+Proof. exact resize_failure_run_completes. Qed.
